@@ -267,4 +267,33 @@ theorem expandConv_closure_adjoint (t x out back : Tensor S) (lead : List Nat) (
     expandConvBack_vals x back lead nImg stride filters hp hx hb]
   exact expandBuf_adjoint nImg stride filters t.vals x.vals hl hx
 
+/-- **one image, every admissible convolution shape**: for an image of `D×R×C` values, a filter window
+    `fr×fc` that fits and any strides, both slice operations return and the closure's result is the transpose
+    of the forward one: `⟨unroll(img), xs⟩ = ⟨img, roll(xs)⟩` for every delta `xs` of the unrolled length. -/
+theorem unroll_roll_slice_adjoint_total (D R C sr sc fr fc : Nat) (img xs : List S)
+    (hfr : fr ≤ R) (hfc : fc ≤ C) (hfr1 : 1 ≤ fr) (hfc1 : 1 ≤ fc) (hD : 1 ≤ D)
+    (himg : img.length = D * R * C)
+    (hxs : xs.length = (((R - fr) / sr + 1) * ((C - fc) / sc + 1)) * (fr * fc) * D) :
+    ∃ U B : List S,
+      unrollOp C R D sr sc fr fc ((C - fc) / sc + 1) ((((R - fr) / sr + 1) * ((C - fc) / sc + 1)) * (fr * fc) * D) [img] = .ok U ∧
+      rollOp true D R C sr sc fr fc (((R - fr) / sr + 1) * ((C - fc) / sc + 1)) ((C - fc) / sc + 1) [xs] = .ok B ∧
+      dot U xs = dot img B := by
+  have hin : ∀ o, o < (((R - fr) / sr + 1) * ((C - fc) / sc + 1)) * (fr * fc) * D →
+      unrollIdx C R D sr sc fr fc ((C - fc) / sc + 1) o < D * R * C := by
+    intro o ho
+    exact unrollIdx_lt C R D sr sc fr fc o hfr hfc hfr1 hfc1 hD (by rw [Nat.mul_right_comm]; exact ho)
+  have hU : unrollOp C R D sr sc fr fc ((C - fc) / sc + 1) ((((R - fr) / sr + 1) * ((C - fc) / sc + 1)) * (fr * fc) * D) [img]
+      = .ok ((List.range ((((R - fr) / sr + 1) * ((C - fc) / sc + 1)) * (fr * fc) * D)).map
+          (fun o => img.getD (unrollIdx C R D sr sc fr fc ((C - fc) / sc + 1) o) zero)) := by
+    simp only [unrollOp]
+    exact tabulateM_ok _ _ _ (fun o ho => getR_getD img _ (by rw [himg]; exact hin o ho))
+  have hB : rollOp true D R C sr sc fr fc (((R - fr) / sr + 1) * ((C - fc) / sc + 1)) ((C - fc) / sc + 1) [xs]
+      = .ok (rollPure (rollIdx D R C sr sc fr fc ((C - fc) / sc + 1)) xs 0 (List.replicate (D * R * C) zero)) := by
+    simp only [rollOp, hxs, Nat.lt_irrefl, if_false]
+    rw [← hxs, List.take_length, rollLoop_ok]
+    intro i hi
+    rw [List.length_replicate, Nat.zero_add, ← unrollIdx_eq_rollIdx]
+    exact hin i (by rw [← hxs]; exact hi)
+  exact ⟨_, _, hU, hB, unroll_roll_slice_adjoint D R C sr sc fr fc _ _ img xs _ _ himg hxs hin hU hB⟩
+
 end Corgi
